@@ -4,7 +4,9 @@
    Response:  the Go signature text exactly as fc prints it up to (excluding) the opening brace,
               e.g.  func app[T0 any, T1 any](f func (T0) T1, x T0) T1
               or ILLTYPED (no typing exists / unbound name / wrong arity), or FUEL; prefixed with
-              "AMBIG " when the body contains a type that nothing determines (infer_ambiguous).
+              "AMBIG " when the body contains a type that nothing determines (infer_ambiguous), then
+              with "OPENGN " when a generic record/union occurs with a type variable inside its
+              type arguments (infer_open_named).
               `C02 (infertype <fn> <table>)` answers the scheme as an s-expression instead:
               (k (<ty> ...) <ty> determined|ambiguous)   with variables (tv i).
 
@@ -152,15 +154,16 @@ let handle want_type fn table =
     let fd = { f_params = List.map (fun (x, a) -> (var x, a)) ps; f_body = ex body } in
     let ta = Array.of_list tnames in
     let amb = infer_ambiguous d big_fuel fd in
+    let opn = infer_open_named d big_fuel fd in
     (match infer_fun d big_fuel fd with
      | OutOfFuel -> "FUEL"
      | IllTyped -> "ILLTYPED"
      | Inferred (k, ptys, rty) ->
        if want_type then
-         "(" ^ string_of_int (int_of_nat k) ^ " (" ^ String.concat " " (List.map (sexp_of_ty ta) ptys) ^ ") " ^ sexp_of_ty ta rty ^ (if amb then " ambiguous" else " determined") ^ ")"
+         "(" ^ string_of_int (int_of_nat k) ^ " (" ^ String.concat " " (List.map (sexp_of_ty ta) ptys) ^ ") " ^ sexp_of_ty ta rty ^ (if amb then " ambiguous" else " determined") ^ (if opn then " opennamed" else " closednamed") ^ ")"
        else
          let names i = let i = int_of_nat i in explode (if i < Array.length ta then ta.(i) else "?") in
-         (if amb then "AMBIG " else "") ^
+         (if amb then "AMBIG " else "") ^ (if opn then "OPENGN " else "") ^
          implode (sig_to_go names (explode (str_of name)) (List.map (fun (x, _) -> explode x) ps) k ptys rty))
   | _ -> raise (Parse_error "fn")
 
